@@ -130,6 +130,9 @@ class C12(Scenario):
             for _ in range(60):
                 k = f.randint(1, 4)
                 steps.append({"op": "stream", "faults": [[f.randrange(n), f.pick(nodes), f.pick(["raise", "badtype"])] for _ in range(k)]})
+        if len(steps) > 200:
+            # a deep tree with many quantity-bearing nodes: a seeded sample of the placements instead of all of them
+            steps = steps[:1] + f.sample(steps[1:], 199)
         return {"spec": sp, "records": [specmod.enc_record(r) for r in recs], "weights": ws, "steps": steps, "prelude": self._gen_prelude(rng, n)}
 
     def run(self, case, w, R):
